@@ -481,7 +481,8 @@ def r11_5(ctx):
     from .c10 import make_ctx
     ctx_obj = make_ctx([], [])
     solver = Obj("solver", attrs={"integrate": Intrinsic("integrate", lambda it, a, k, n, f: (seen.append(tuple(a)) or
-                                                                                             (nf.sym("YS"), (nf.sym("E1"),))))})
+                                                                                             (nf.sym("YS"), (nf.sym("E1"),)))),
+                                  "adaptive": True, "dt": nf.sym("dt", True), "dt_min": nf.sym("dt_min", True), "options": {}})
     it = Interp(model, H())
     y0, x1 = nf.sym("y0"), nf.sym("X1")
     args = [ctx_obj, Obj("sde"), nf.sym("ts"), nf.sym("dt", True), Obj("bm"), solver, "midpoint", "midpoint", False,
